@@ -782,7 +782,8 @@ class Bin(Factory, Container):
         # trivial case
         if low is None and high is None:
             bw = self.bin_width()
-            return np.arange(self.low + bw / 2.0, self.high + bw / 2.0, bw)
+            # one centre per bin: the length of a float-stepped arange depends on rounding (num or num + 1 elements)
+            return (self.low + bw / 2.0) + np.arange(len(self.values)) * bw
         # catch weird cases
         if low is not None and high is not None:
             if low > high:
